@@ -15,6 +15,7 @@ Decided:
     same loop iteration, never the loop-initial or previous cursor value.
  E5 wrap-safe indices (H-ctr): the free-running ring indices are never order-compared raw and never combined with
     non-wrapping arithmetic anywhere in the queue code.
+ E10 descriptor fields are overwritten on reuse, flags = extra | WRITE-iff-device-writable for every old value (C01.F1).
  E8 a blocking helper pops the token its own add returned (token provenance).  E9 can_pop is folded over pairs of index
     values including across the wrap: true iff they differ.
  E7 free-descriptor query: available_desc is folded over (in-use count, indirect flag, SIZE): it reports 0 exactly
@@ -73,6 +74,10 @@ def run(F, R):
     e7_available(F, R, M, add_id)
     e2b_all_slots(F, R, M, lfield)
     e8_helper_token(F, R, M, roles)
+    # E10: a reused descriptor carries only this submission's flags (no stale INDIRECT / WRITE from its previous use), so
+    # that the release path takes the branch of the chain actually submitted (shared with C01.F1)
+    from .C01 import share_fn_rule
+    share_fn_rule(F, R, 'E10')
     e9_can_pop(F, R, M, by['can_pop'][0], lfield)
 
 
